@@ -16,12 +16,15 @@ Definition is_account_term (c : N) : bool := (c =? 9) || (c =? 59) || (c =? 13) 
 Definition posting_account (fuel : nat) : parser (list N * rspan) :=
   terminated
     (with_span
-       (pmap trim_start
-          (taken (repeat_till1 fuel
-                    (opt (literal [32]) ;;; take_till1 is_account_stop)
-                    (peek (alt (void (literal [32; 32]))
-                               (alt (void (taken (opt (literal [32]) ;;; one_of is_account_term)))
-                                    eof)))))))
+       (try_map
+          (pmap trim_start
+             (taken (repeat_till1 fuel
+                       (opt (literal [32]) ;;; take_till1 is_account_stop)
+                       (peek (alt (void (literal [32; 32]))
+                                  (alt (void (taken (opt (literal [32]) ;;; one_of is_account_term)))
+                                       eof))))))
+          (* .verify(!is_empty): trim_start also strips U+000B, U+3000, ... *)
+          (fun x => match x with [] => None | _ => Some x end)))
     space0.
 
 Definition lot_amount (fuel : nat) : parser s_exchange :=
@@ -60,7 +63,7 @@ Fixpoint lot_loop (fuel : nat) (n : nat) (l : s_lot) (psp : option rspan) : pars
         | 40 :: _ =>
             match lot_note l with
             | None =>
-                (nt <- paren (take_till1 is_note_stop) ;;
+                (nt <- paren (take_till0 is_note_stop) ;;
                  space0 ;;;
                  lot_loop fuel n' {| lot_price := lot_price l; lot_date := lot_date l; lot_note := Some nt |} psp) i
             | Some _ => PErr false L_lot_note_dup i
